@@ -49,6 +49,10 @@ func ValidateParameters(n *saferith.Modulus, s, t *saferith.Nat) error {
 	if !arith.IsValidNatModN(n, s, t) {
 		return ErrNotValidModN
 	}
+	// s = 1 or t = 1 makes the commitment degenerate
+	if one := new(saferith.Nat).SetUint64(1); s.Eq(one) == 1 || t.Eq(one) == 1 {
+		return ErrNotValidModN
+	}
 	// s ≡ t
 	if _, eq, _ := s.Cmp(t); eq == 1 {
 		return ErrSEqualT
